@@ -680,6 +680,12 @@ class ExchangeRate:
             magnitude_term_amount = int(math.floor(math.log10(term_amount)))
         if term_amount < Decimal("0.000001"):
             raise ValueError("Term amount must be >= 0.000001.")
+        # if unit_multiple is not a power to 10, dividing by it reduces the
+        # magnitude of the adjusted term_amount
+        pow10 = Decimal(10) ** unit_multiple.magnitude
+        if pow10 != unit_multiple and (term_amount * pow10 / unit_multiple
+                                       < Decimal(10) ** magnitude_term_amount):
+            magnitude_term_amount -= 1
         # adjust unit_multiple and term_amount so that
         # unit_multiple is a power to 10 and term_amount.magnitude >= -1
         mult = Decimal(10) ** (unit_multiple.magnitude
